@@ -19,6 +19,10 @@ PLACES = ["root", "sub", "subsub", "item-assigned", "item-default"]
 ACTIONS = ["validate", "collect", "load_tree-empty", "load_tree-partial", "loads-json", "loads-yaml", "sub-validate", "item-validate"]
 ORIGINS = ["default", "default-const", "assigned", "loaded", "ctor"]
 BREAKS = ["schema-validator", "field-validator", "required-reset", "none", "second-item"]
+# every way an item can enter a list of configurations, with maps and with configuration objects, acceptable or not
+LISTOPS = ["append", "insert", "setitem", "extend", "iadd", "slice", "slice-insert", "add-assign", "mul", "ctor-copy",
+           "append-twice", "insert-after-reject", "setitem-after-reject", "move-broken-item"]
+ITEMS = ["good-map", "bad-map", "required-missing-map", "good-obj", "bad-obj", "scalar"]
 HOLDERS = ["root", "sub"]
 
 
@@ -33,8 +37,14 @@ def generate(rng, tier):
             for holder in HOLDERS:
                 for action in ACTIONS[:6]:
                     cases.append({"fam": "deflist", "origin": origin, "break": brk, "holder": holder, "action": action, "src": "matrix"})
+    for op in LISTOPS:
+        for item in ITEMS:
+            for holder in HOLDERS:
+                cases.append({"fam": "listops", "op": op, "item": item, "holder": holder, "src": "matrix"})
     for _ in range(40 if tier == "quick" else 1500):
-        if rng.random() < 0.4:
+        if rng.random() < 0.25:
+            cases.append({"fam": "listops", "op": rng.choice(LISTOPS), "item": rng.choice(ITEMS), "holder": rng.choice(HOLDERS), "src": "random"})
+        elif rng.random() < 0.4:
             cases.append({"fam": "late", "place": rng.choice(PLACES), "action": rng.choice(ACTIONS), "with_default": rng.random() < 0.3,
                           "src": "random"})
         else:
@@ -168,9 +178,113 @@ def _deflist(c, out):
     return out
 
 
+def _listops(c, out):
+    from cincoconfig import Schema, StringField, IntField, ListField, validator, Config, ValidationError
+    item = Schema()
+    item.name = StringField(required=True)
+    item.lo = IntField(default=0, min=0)
+    item.hi = IntField(default=10)
+
+    @validator(item)
+    def lo_below_hi(cfg):          # noqa
+        if cfg.lo >= cfg.hi:
+            raise ValueError("lo must be below hi")
+    s = Schema()
+    s.title = StringField(default="t")
+    hs = s if c["holder"] == "root" else s.sub
+    if c["holder"] != "root":
+        s.sub.x = IntField(default=2)
+    hs.ranges = ListField(item)
+    cfg = s()
+    h = cfg if c["holder"] == "root" else cfg.sub
+    h.ranges = [{"name": "a"}, {"name": "b", "lo": 1, "hi": 5}]
+    kind = c["item"]
+    if kind == "good-map":
+        new = {"name": "n", "lo": 2, "hi": 3}
+    elif kind == "bad-map":
+        new = {"name": "n", "lo": 9, "hi": 3}
+    elif kind == "required-missing-map":
+        new = {"lo": 1}
+    elif kind == "good-obj":
+        new = item()
+        new.name = "n"
+    elif kind == "bad-obj":
+        new = item()
+        new.name = "n"
+        new.lo = 50
+    else:
+        new = 5
+    lst = h.ranges
+    op = c["op"]
+    try:
+        if op == "append":
+            lst.append(new)
+        elif op == "insert":
+            lst.insert(1, new)
+        elif op == "setitem":
+            lst[0] = new
+        elif op == "extend":
+            lst.extend([new])
+        elif op == "iadd":
+            lst += [new]
+        elif op == "slice":
+            lst[0:1] = [new]
+        elif op == "slice-insert":
+            lst[1:1] = [new]
+        elif op == "add-assign":
+            h.ranges = lst + [new]
+        elif op == "mul":
+            lst *= 1
+            lst.append(new)
+        elif op == "ctor-copy":
+            h.ranges = list(lst) + [new]
+        elif op in ("append-twice", "insert-after-reject", "setitem-after-reject"):
+            # the same object / map offered again after a first attempt (whatever its outcome)
+            try:
+                lst.append(new)
+            except Exception:  # noqa
+                pass
+            if op == "append-twice":
+                lst.append(new)
+            elif op == "insert-after-reject":
+                lst.insert(0, new)
+            else:
+                lst[0] = new
+        elif op == "move-broken-item":
+            # an item of the list is made to violate its rule in place, then stored again in another slot of the same list
+            it = lst[1]
+            if kind in ("bad-map", "bad-obj"):
+                it.lo = 7          # acceptable for the field, lo >= hi for the item
+            elif kind == "required-missing-map":
+                from cincoconfig import reset_value
+                reset_value(it, "name")
+            out["moved_broken"] = kind in ("bad-map", "bad-obj", "required-missing-map")
+            lst[0] = it
+        out["result"] = "accepted"
+    except ValidationError:
+        out["result"] = "rejected"
+    except ValueError:
+        out["result"] = "rejected"
+    except Exception as e:  # noqa
+        out["result"] = "raised:" + type(e).__name__
+    held = h._data["ranges"]
+    out["raw_items"] = [type(i).__name__ for i in held if not isinstance(i, Config)]
+    out["names"] = [i._data.get("name") if isinstance(i, Config) else None for i in held]
+    act = {}
+    _act(cfg, "validate", act, {})
+    out["validate"] = act["result"]
+
+    def item_ok(i):
+        return isinstance(i, Config) and i._data.get("name") not in (None, "") and i._data.get("lo") < i._data.get("hi")
+    out["all_ok"] = all(item_ok(i) for i in held)
+    return out
+
+
 def impl(c):
     out = {}
     try:
+        if c["fam"] == "listops":
+            return _listops(c, out)
         return _late(c, out) if c["fam"] == "late" else _deflist(c, out)
     except Exception as e:  # noqa
         out["setup"] = "%s: %s" % (type(e).__name__, e)
@@ -178,6 +292,25 @@ def impl(c):
 
 
 def oracle(c, obs):
+    if c["fam"] == "listops":
+        what = "%s of a %s on a list of configurations held by %s" % (c["op"], c["item"], c["holder"])
+        if "setup" in obs:
+            return ["%s: setup failed: %s" % (what, obs["setup"])]
+        bad = []
+        if obs["raw_items"]:
+            bad.append("%s: the list holds items that are not configurations: %s" % (what, obs["raw_items"]))
+        good = c["item"] in ("good-map", "good-obj")
+        if c["op"] == "move-broken-item":
+            good = not obs.get("moved_broken")
+        if obs["result"] == "accepted" and not good:
+            bad.append("%s: an item that violates the item schema's rules was accepted" % what)
+        if obs["result"] != "accepted" and good:
+            bad.append("%s: an acceptable item was refused (%s)" % (what, obs["result"]))
+        if obs["validate"] == "ok" and not obs["all_ok"]:
+            bad.append("%s: validation of the owning configuration passed although the list holds an item that violates its rules" % what)
+        if obs["validate"] != "ok" and obs["all_ok"]:
+            bad.append("%s: validation of the owning configuration failed although every item meets its rules" % what)
+        return bad
     if c["fam"] == "late":
         what = "required field added to the %s schema after the configuration was built (%s default), %s" % (
             c["place"], "with a" if c["with_default"] else "no", c["action"])
@@ -204,6 +337,8 @@ def oracle(c, obs):
 
 
 def tags(c, obs):
+    if c["fam"] == "listops":
+        return {"fam:listops", "op:" + c["op"], "item:" + c["item"], "result:" + str(obs.get("result"))}
     t = {"fam:" + c["fam"], "action:" + c["action"], "result:" + str(obs.get("result"))}
     if c["fam"] == "late":
         t |= {"place:" + c["place"], "covered:%s" % obs.get("covered")}
@@ -213,4 +348,4 @@ def tags(c, obs):
 
 
 def nontrivial(c, obs):
-    return obs.get("result") == "errors"
+    return obs.get("result") in ("errors", "rejected", "accepted")
